@@ -56,7 +56,7 @@ func init() {
 			}
 			nSys := len(paths) * len(gen.Battery)
 			return &harness.Plan{
-				N:     nSys + size(tier, 100000, 1500000),
+				N:     nSys + size(tier, 100000, 4000000),
 				Setup: func(c *harness.Ctx) { hooksOn() },
 				Run: func(c *harness.Ctx, k int) {
 					hooksAlternate(k)
